@@ -255,6 +255,8 @@ def boundary_cases(rng, tier, per_cap=2, op='encode'):
                 variants = [None]
                 if small:
                     variants += list(tails) if tier != 'quick' else [rng.choice(sorted(tails)), rng.choice(sorted(tails)), rng.choice(sorted(tails))]
+                    if kind == 'edifact' and 'brace' not in variants:
+                        variants.append('brace')      # ASCII codeword 124 = EDIFACT unlatch << 2 in the last codewords
                 elif rng.chance(1, 3) and L > 4:
                     variants = ['mixed']
                 for v in variants:
